@@ -775,7 +775,10 @@ def run_history(c):
     init = {'groups': g0, 'm': None, 'dp': tuple([0.0] * k), 'last': 'init', 'iter': 0,
             'err': None, 'problems': [(kk, w, ob, ex, None, 'orificing.py:_group')
                                       for (kk, w, ob, ex) in partition_problems(list(g0), k)]}
-    res = bfs([init], enabled, step, canon_state, invariant, c['depth'])
+    # histories that start from the recycled sweep of an earlier run whose flows were 30 % short / 40 % over what this
+    # target needs (equal flows): the next distribution hands out the required total all the same
+    inits = [init] + [dict(init, m=tuple([m_total * f_ / n] * n), last='D', iter=1, problems=[]) for f_ in (0.7, 1.4)]
+    res = bfs(inits, enabled, step, canon_state, invariant, c['depth'])
     r['states'] = res['states']
     r['transitions'] = res['transitions']
     r['traces'] = 1
